@@ -273,6 +273,11 @@ Definition np_step (s : dstore) (o : xop) : dstore * doutcome :=
           else if Nat.eqb (length w) 1 then (upd s i (DV (repeat (hd 0 w) (length v)) ro), DUpd (DV (repeat (hd 0 w) (length v)) ro))
           else (s, DErr EValue)
       | _, _ => skip end
+  | XOp (OConv c i) =>                                  (* np.asarray(a) is a itself, np.array(a, copy=True) a copy *)
+      match nth_error s i, c with
+      | Some (DV v _), CIdent => (s, DSelf)
+      | Some (DV v _), CCopy => (s ++ [DV v false], DNew (DV v false))
+      | _, _ => skip end
   | XOp (OToFlat i _) =>                                 (* a.flatten(), whatever the buffer held *)
       match nth_error s i with
       | Some (DV v _) => (s, DDense v)
